@@ -115,7 +115,7 @@ def run(ctx):
                 if x["stmt"].kind != "delete":
                     continue
                 tables.add(x["stmt"].table)
-                if e["func"] == "Mailbox.close" and x["func"] == "Mailbox.close" and \
+                if "Mailbox.close" in e["stack"] and "Mailbox.close" in x["stack"] and \
                         x["stmt"].table in ("nameplates", "messages", "mailbox_sides"):
                     eq = x["src"]["where_eq"]
                     okk = eq is not None and set(eq) <= {"mailbox_id", "app_id"} and \
@@ -129,10 +129,11 @@ def run(ctx):
                                x["stmt"].table,
                                x["stmt"].where.render() if x["stmt"].where else "no WHERE"))
             tables.add("mailboxes")
-            sets[e["func"]] = tables
+            owner = "Mailbox.close" if "Mailbox.close" in e["stack"] else e["func"]
+            sets[owner] = tables
             missing = [t for t in RETIRE_TABLES if t not in tables]
             ctx.ob("R08.codel", "%s: one transaction deletes %s" % (
-                e["func"], ",".join(RETIRE_TABLES)), not missing, e,
+                owner, ",".join(RETIRE_TABLES)), not missing, e,
                 "" if not missing else "the transaction that deletes the mailbox row does "
                 "not delete from %s" % missing, render_path(p.events) if missing else None)
     if "Mailbox.close" not in sets:
@@ -149,7 +150,7 @@ def run(ctx):
                    % (sorted(a), sorted(b)))
     e3 = e3mod.get(model)
     for f in e3.by_kind("fk_delete") + e3.by_kind("child_delete"):
-        if f.event["func"] == "Mailbox.close":
+        if "Mailbox.close" in f.event["stack"]:
             ctx.ob("R08.codel", f.construct, f.ok, f.site, f.detail,
                    render_path(f.path.events) if (f.path and not f.ok) else None)
     # R08.answer
@@ -176,6 +177,13 @@ def run(ctx):
                    if e["k"] == "send" and frame_type(e) == "closed"]
             if not rets or not snd or snd[0] < rets[-1]:
                 ok = False
+        for e, _ in all_events(p, ("send",)):
+            if frame_type(e) == "closed":
+                clean = not e["dirty"]
+                ctx.ob("R08.answer", "%s: `closed` acknowledges a committed close" % h, clean,
+                       e, "" if clean else "`closed` is sent while this side's close is still "
+                       "uncommitted: a crash now forgets it, the side (told `closed`) never "
+                       "retries, and the mailbox is never deleted when the other side closes")
         ctx.ob("R08.answer", "%s: answers closed" % h, ok, p.events[-1],
                "" if ok else "a close that passes validation ends with frames %s (%s %s)"
                % (sent, p.outcome.kind, p.outcome.cls or ""),
